@@ -108,6 +108,8 @@ def hAoDouble (args : List String) (real : Option String) : Option Out := do
     `unknown` (shape not recognised by the fact pass) is accepted for the shape facts, but the SCOPE
     fact (is the asyncOp created inside the closure / loop body that issues the request?) is answered
     from the table in every case: a hoisted `NewAsyncOp` shows as `scope=shared` against the table.
+    The same holds for `waitErrReturns` (is `Wait`'s error handed back before any receive from a callback
+    channel?): a receive moved in front of the guard shows as `waitErrReturns=0`.
     A call site that is not in the table must have the generic shape the theorems are proved for
     (buffered, read after Wait, error propagated, some ctx deadline, asyncOp not shared). -/
 def hAoSite (args : List String) (real : Option String) : Option Out := do
@@ -115,16 +117,18 @@ def hAoSite (args : List String) (real : Option String) : Option Out := do
   let rt := (real.map toks).getD []
   let unknown := rt.head? == some "unknown"
   let model := match lookupSite site with
-    | some w => if unknown then s!"unknown scope={w.scope.show}" else w.factLine
+    | some w =>
+      if unknown then s!"unknown scope={w.scope.show} waitErrReturns={if w.returnsOnWaitError then "1" else "0"}"
+      else w.factLine
     | none =>
       let sc := match kv rt "scope" with
         | some "single" => "single"
         | _ => "per-request"
-      if unknown then s!"unknown scope={sc}" else
+      if unknown then s!"unknown scope={sc} waitErrReturns=1" else
       let d := match kv rt "deadline" with
         | some "none" | none => "<some-ctx-deadline>"
         | some d => d
-      s!"buffered=1 readsAfterWait=1 propagatesErr=1 deadline={d} scope={sc}"
+      s!"buffered=1 readsAfterWait=1 propagatesErr=1 deadline={d} scope={sc} waitErrReturns=1"
   some { model }
 
 end AO
